@@ -232,11 +232,27 @@ def judge(kind, obs, n, CL, M):
     return None
 
 
-def run_bytesio(om, n, CL, M, extra):
+class RawStream(__import__('io').RawIOBase):
+    """an unbuffered connection (io.RawIOBase): whatever is taken from it is gone - the next request's bytes too"""
+
+    def __init__(self, data):
+        self.data, self.pos = data, 0
+
+    def readable(self):
+        return True
+
+    def readinto(self, b):
+        k = min(len(b), len(self.data) - self.pos)
+        b[:k] = self.data[self.pos:self.pos + k]
+        self.pos += k
+        return k
+
+
+def run_bytesio(om, n, CL, M, extra, spelling=None, raw=False):
     import io
     data = data_of(n) + extra
-    stream = io.BytesIO(data)
-    env = wsgi.environ('POST', '/', input=stream, clen=CL)
+    stream = RawStream(data) if raw else io.BytesIO(data)
+    env = wsgi.environ('POST', '/', input=stream, clen=CL if spelling is None else spelling % CL)
     req = om.Request(env, config={'max_memfile_size': M})
     obs = {'hang': False, 'exc': None, 'calls': [], 'replaced': True}
     try:
@@ -247,6 +263,7 @@ def run_bytesio(om, n, CL, M, extra):
         wi = env['wsgi.input']
         wi.seek(0)
         obs['wsgi_input'] = wi.read()
+        obs['taken'] = stream.pos if raw else None
     except Exception as e:   # noqa
         obs['exc'] = f'{type(e).__name__}: {e}'
     return obs, data
@@ -272,7 +289,32 @@ def work_bytesio(res, om):
                     if bad:
                         core.add_violation(res, {'kind': 'bytesio', 'n': n, 'CL': CL, 'M': M, 'extra': extra, 'choices': []},
                                            f'BytesIO input {data!r} CL={CL} M={M}: {bad}', sig='bytesio:content')
-    core.add_sample(res, {'kind': 'bytesio', 'lengths': '0..10', 'trailing': ['', 'NEXT-REQUEST']})
+    # Content-Length spelled with leading zeros / surrounding blanks; an unbuffered (io.RawIOBase) connection that holds the next
+    # request behind the body: nothing beyond Content-Length may be taken from it
+    nxt = b'NEXT-REQUEST ' * 1000
+    for n in (0, 1, 5, 10):
+        for CL in [x for x in cls_for(n) if x is not None and x >= 0]:
+            for M in (1, 3, 64):
+                for spelling, raw in (('%03d', False), ('0000000%d', False), (' %d ', False), (None, True), ('%02d', True)):
+                    obs, data = run_bytesio(om, n, CL, M, nxt, spelling, raw)
+                    res['execs'] += 1
+                    res['states'] += 1
+                    res['transitions'] += 1
+                    c['bytesio_cases'] += 1
+                    exp = expected(data, CL)
+                    bad = None
+                    if obs['exc']:
+                        bad = obs['exc']
+                    elif obs['content'] != exp or obs['again'] != exp:
+                        bad = f'body {obs["content"]!r} / second access {obs["again"]!r}, expected {exp!r}'
+                    elif raw and obs['taken'] > max(CL, 0):
+                        bad = f'{obs["taken"]} bytes were taken from the unbuffered stream, Content-Length is {CL}'
+                    if bad:
+                        core.add_violation(res, {'kind': 'bytesio', 'n': n, 'CL': CL, 'M': M, 'extra': nxt, 'choices': [], 'spelling': spelling, 'raw': raw},
+                                           f'{"unbuffered raw" if raw else "BytesIO"} input, Content-Length spelled {(spelling or "%d") % CL!r} M={M}: {bad}',
+                                           sig='bytesio:' + ('overread' if 'taken' in bad else 'content'))
+    core.add_sample(res, {'kind': 'bytesio', 'lengths': '0..10', 'trailing': ['', 'NEXT-REQUEST'], 'content_length_spellings': ['%d', '%03d', '0000000%d', ' %d '],
+                          'unbuffered_raw_stream': True})
 
 
 def work(spec):
@@ -321,9 +363,12 @@ def work(spec):
 def replay(case):
     om = sut.load()
     if case['kind'] == 'bytesio':
-        obs, data = run_bytesio(om, case['n'], case['CL'], case['M'], case['extra'])
+        obs, data = run_bytesio(om, case['n'], case['CL'], case['M'], case['extra'], case.get('spelling'), bool(case.get('raw')))
         exp = expected(data, case['CL'])
-        if not obs['exc'] and obs['content'] == exp and obs['again'] == exp and obs['wsgi_input'] == exp:
+        if case.get('raw') and not obs['exc'] and obs['content'] == exp and obs['taken'] > max(case['CL'], 0):
+            return (f'wsgi.input is an unbuffered io.RawIOBase connection holding {len(data)} bytes, Content-Length={case["CL"]}, max_memfile_size={case["M"]}: '
+                    f'{obs["taken"]} bytes were taken from it (the body itself is right)')
+        if not obs['exc'] and obs['content'] == exp and obs['again'] == exp and (case.get('raw') or obs['wsgi_input'] == exp):
             return None
         return (f'wsgi.input = io.BytesIO({data!r}), Content-Length={case["CL"]}, max_memfile_size={case["M"]}: body.read() gives '
                 f'{obs.get("content")!r} (second access {obs.get("again")!r}, exception {obs["exc"]}); expected {exp!r}')
